@@ -63,7 +63,8 @@ def _reader_script(rng: random.Random, L: int, align: int, sector: int) -> List[
             pos = min(max(t, 0), L)
         else:
             rem = L - pos
-            n = rng.choice([align, 2 * align, 64, 4096, sector, sector - (pos % sector) if sector else 8, rem, rem + align, rng.randint(0, max(1, rem))])
+            n = rng.choice([align, 2 * align, 64, 4096, sector, sector - (pos % sector) if sector else 8, rem, rem + align, rng.randint(0, max(1, rem)),
+                            3 * sector, 4 * sector + align, 0x8000, 0x10000])
             n = max(0, (n // align) * align)
             ops.append(["read", n])
             pos += min(rem, n)
